@@ -120,18 +120,19 @@ func (w *vWorld) pend(op, row int, num uint64, str string) {
 }
 
 // opMenu: bit 0 put a, bit 1 merge a, bit 2 put b, bit 3 delete, bit 4 insert (storing a),
-// bit 5 insert storing only the witness column b
+// bit 5 insert storing only the witness column b, bit 6 insert storing nothing (a placeholder row:
+// the only change of the transaction to that block may then be the row marker)
 func (w *vWorld) oneOp(txn *Txn, menu int, maxLen int) {
-	var ops [6]int
+	var ops [7]int
 	n := 0
-	for o := 0; o < 6; o++ {
+	for o := 0; o < 7; o++ {
 		if menu&(1<<o) != 0 && (o != 1 || vCanMerge(w.kind)) {
 			ops[n] = o
 			n++
 		}
 	}
 	op := ops[vndChoice("op", n)]
-	if op == 4 || op == 5 {
+	if op >= 4 {
 		if w.n >= vMaxRows {
 			return
 		}
@@ -139,13 +140,13 @@ func (w *vWorld) oneOp(txn *Txn, menu int, maxLen int) {
 		var str string
 		if op == 4 {
 			num, str = vInput(w.kind, maxLen)
-		} else {
+		} else if op == 5 {
 			num = vndU64("bval")
 		}
 		off, err := txn.Insert(func(r Row) error {
 			if op == 4 {
 				vSet(r, w.kind, "a", num, str)
-			} else {
+			} else if op == 5 {
 				r.SetInt64("b", int64(num))
 			}
 			return nil
@@ -246,6 +247,12 @@ func (w *vWorld) commitModel() {
 			w.live[s] = true
 			w.a[s] = vCell{}
 			w.b[s] = vCell{has: true, num: w.pNum[i]}
+		case 6:
+			if !w.live[s] {
+				w.count++
+			}
+			w.live[s] = true
+			w.a[s], w.b[s] = vCell{}, vCell{}
 		}
 	}
 	w.clearPending()
@@ -265,7 +272,7 @@ func (w *vWorld) mergeReorder() bool {
 		switch w.pOp[i] {
 		case 0, 4:
 			cur[s] = vModelSet(w.kind, w.pNum[i], w.pStr[i])
-		case 3, 5:
+		case 3, 5, 6:
 			cur[s] = vCell{}
 		case 1:
 			if cur[s].has && len(cur[s].str) > 0 {
